@@ -348,7 +348,7 @@ func r3(c *core.Ctx, s *Sender) {
 		}
 	}
 	// (c) the closure sends the whole batch, each item once
-	switch x := ast.Unparen(s.Range.X).(type) {
+	switch x := ast.Unparen(s.RangeExpr).(type) {
 	case *ast.Ident:
 		c.Okf(rule, "range-whole-batch", s.Range.Pos(), "sendFunc ranges over the whole batch in index order")
 	case *ast.SliceExpr:
@@ -365,10 +365,11 @@ func r3(c *core.Ctx, s *Sender) {
 			c.Undecidedf(rule, "range-whole-batch", s.Range.Pos(), "unknown ranged expression `%s`", c.Src(x))
 		}
 	default:
-		c.Undecidedf(rule, "range-whole-batch", s.Range.Pos(), "unknown ranged expression `%s`", c.Src(s.Range.X))
+		c.Undecidedf(rule, "range-whole-batch", s.Range.Pos(), "unknown ranged expression `%s`", c.Src(s.RangeExpr))
 	}
 	var rbody, rhead *cfg.Block
-	for _, b := range s.LG.CFG.Blocks {
+	rg, rinfo := s.RC.G, s.RC.Info // the graph that holds the range loop
+	for _, b := range rg.CFG.Blocks {
 		if b.Stmt == ast.Stmt(s.Range) && b.Kind == cfg.KindRangeBody {
 			rbody = b
 		}
@@ -378,13 +379,13 @@ func r3(c *core.Ctx, s *Sender) {
 	}
 	twice := false
 	for _, d := range s.Data { // a second Send reachable from a first within one iteration
-		dp, ok := s.LG.Find(d.Call)
+		dp, ok := rg.Find(d.Call)
 		if !ok || rhead == nil {
 			continue
 		}
 		reach := BlocksFrom(dp, true, nil, rhead)
 		for _, e := range s.Data {
-			ep, ok := s.LG.Find(e.Call)
+			ep, ok := rg.Find(e.Call)
 			if ok && (reach[ep.B] || ep.B == dp.B && ep.I > dp.I) {
 				twice = true
 			}
@@ -398,20 +399,20 @@ func r3(c *core.Ctx, s *Sender) {
 		call.Ellipsis = site.Call.Rparen
 	}
 	okArgs := len(call.Args) == 2 && call.Ellipsis.IsValid() &&
-		isFieldOf(info, call.Args[0], s.ItemVar, "Cmd") && isFieldOf(info, call.Args[1], s.ItemVar, "Args")
+		isFieldOf(rinfo, call.Args[0], s.ItemVar, "Cmd") && isFieldOf(rinfo, call.Args[1], s.ItemVar, "Args")
 	if okArgs {
 		c.Okf(rule, "send-args", call.Pos(), "Send(item.Cmd, item.Args...) of the ranged element")
-	} else if mentionsObj(info, call, s.Tunnel) || !mentionsObj(info, call, s.ItemVar) || len(call.Args) != 2 {
+	} else if mentionsObj(info, call, s.Tunnel) || !mentionsObj(rinfo, call, s.ItemVar) || len(call.Args) != 2 {
 		c.Failf(rule, "send-args", call.Pos(), "`%s` does not send the ranged element's command with all its arguments: the target receives a different command than the source issued", c.Src(call))
 	} else {
 		c.Undecidedf(rule, "send-args", call.Pos(), "`%s` is not the known Send(item.Cmd, item.Args...) form", c.Src(call))
 	}
-	if dp, ok := s.LG.Find(site.Call); ok {
+	if dp, ok := rg.Find(site.Call); ok {
 		// every iteration executes the Send: the loop head is not reachable from the body start without it
 		body, head := rbody, rhead
 		isData := func(n ast.Node) bool {
 			for _, d := range s.Data {
-				if p, ok := s.LG.Find(d.Call); ok && p.Node() == n {
+				if p, ok := rg.Find(d.Call); ok && p.Node() == n {
 					return true
 				}
 			}
@@ -421,7 +422,7 @@ func r3(c *core.Ctx, s *Sender) {
 		if body != nil && head != nil {
 			reach := BlocksFrom(cfgq.Point{B: body, I: 0}, false, isData)
 			skipped := reach[head]
-			for _, b := range s.LG.CFG.Blocks { // leaving the loop early (break/return) also skips the rest of the batch
+			for _, b := range rg.CFG.Blocks { // leaving the loop early (break/return) also skips the rest of the batch
 				if reach[b] && b.Kind == cfg.KindRangeDone && b.Stmt == ast.Stmt(s.Range) {
 					skipped = true
 				}
@@ -430,7 +431,7 @@ func r3(c *core.Ctx, s *Sender) {
 			// the loop is left only through its head (no break / return after a partial batch)
 			early := false
 			for b := range BlocksFrom(cfgq.Point{B: body, I: 0}, false, nil, head) {
-				if b.Kind == cfg.KindRangeDone && b.Stmt == ast.Stmt(s.Range) || s.LG.Exit(b) == cfgq.ExitRet {
+				if b.Kind == cfg.KindRangeDone && b.Stmt == ast.Stmt(s.Range) || rg.Exit(b) == cfgq.ExitRet {
 					early = true
 				}
 			}
@@ -443,7 +444,7 @@ func r3(c *core.Ctx, s *Sender) {
 		return ok && len(as.Lhs) == 1 && IsObj(info, s.Tunnel)(as.Lhs[0]) && !s.IsAppend(n)
 	}
 	truncs := s.LG.Points(isTrunc)
-	isRange := func(n ast.Node) bool { return n == s.RangePt.Node() }
+	xTrunc := func(n XNode) bool { return n.C == s.X.Root && isTrunc(n.N) }
 	for i, tp := range truncs {
 		as := tp.Node().(*ast.AssignStmt)
 		key := fmt.Sprintf("clear-form#%d", i+1)
@@ -453,8 +454,9 @@ func r3(c *core.Ctx, s *Sender) {
 			continue
 		}
 		c.Okf(rule, key, as.Pos(), "batch cleared by truncation")
-		dom, w := s.LG.Dominated(tp, isRange)
-		c.Check(rule, fmt.Sprintf("clear-after-send#%d", i+1), as.Pos(), dom,
+		tn := tp.Node()
+		w := s.X.Path(XQuery{Avoid: s.RangeX.Is(), Target: func(n XNode) bool { return n.C == s.X.Root && n.N == tn }})
+		c.Check(rule, fmt.Sprintf("clear-after-send#%d", i+1), as.Pos(), w == nil,
 			"the batch may be emptied only after the range that sends it: here it can be emptied first, so its commands are never sent", w...)
 	}
 	inLit := func(n ast.Node) bool { return s.Lit.Pos() <= n.Pos() && n.End() <= s.Lit.End() }
@@ -470,14 +472,14 @@ func r3(c *core.Ctx, s *Sender) {
 		}
 		return true
 	})
-	w := s.LG.Path(cfgq.Query{From: s.RangePt, After: true, Avoid: isTrunc, TargetExit: cfgq.NormalExit})
+	w := s.X.Path(XQuery{From: s.RangeX, After: true, Avoid: xTrunc, TargetExit: true})
 	if w != nil && truncElsewhere {
 		c.Undecidedf(rule, "clear-on-every-path", s.Range.Pos(), "the batch is emptied outside sendFunc; the rule only follows the closure")
 	} else {
 		c.Check(rule, "clear-on-every-path", s.Range.Pos(), w == nil && len(truncs) > 0,
 			"after the batch was sent every path to the end of sendFunc must empty it: otherwise the same commands are sent again with the next batch", w...)
 	}
-	w = s.LG.Path(cfgq.Query{From: s.RangePt, After: true, Avoid: IsFlush(info), TargetExit: cfgq.NormalExit})
+	w = s.X.Path(XQuery{From: s.RangeX, After: true, Avoid: XIsFlush, TargetExit: true})
 	if w != nil && flushElsewhere {
 		c.Undecidedf(rule, "flush-after-send", s.Range.Pos(), "the connection is flushed outside sendFunc; the rule only follows the closure")
 	} else {
@@ -613,10 +615,41 @@ func r8(c *core.Ctx, s *Sender) {
 			"once the ticker arm requests a flush, sendFunc() must run before the next select: otherwise the cached commands wait for further traffic", w...)
 	}
 	if n == 0 {
+		// the flush variable may be computed in the arm (helper, expression): not judged
+		computed := false
+		for _, pt := range s.G.Points(setAny) {
+			if !(s.Tick.Pos() <= pt.Node().Pos() && pt.Node().End() <= s.Tick.End()) {
+				continue
+			}
+			as := pt.Node().(*ast.AssignStmt)
+			for i, l := range as.Lhs {
+				if IsObj(info, s.Fs)(l) {
+					if len(as.Lhs) != len(as.Rhs) {
+						computed = true
+					} else if tv, ok := info.Types[as.Rhs[i]]; !ok || tv.Value == nil {
+						computed = true
+					}
+				}
+			}
+		}
+		if computed {
+			c.Undecidedf(rule, "flush-requested", s.Tick.Pos(), "the timer arm computes the flush request by an expression the rule does not evaluate")
+			return
+		}
 		// the arm may also flush directly
 		fsTest := func(b *cfg.Block, i int) bool { // any branch on the flush variable
 			cond := cfgq.CondOf(b)
-			return cond != nil && core.Mentions(info, cond, s.Fs)
+			if cond != nil && core.Mentions(info, cond, s.Fs) {
+				return true
+			}
+			for si := range b.Succs {
+				for _, ft := range s.Fl.Facts(b, si) {
+					if core.Mentions(info, ft.Expr, s.Fs) {
+						return true
+					}
+				}
+			}
+			return false
 		}
 		if s.G.Path(cfgq.Query{From: cfgq.Point{B: s.TickBody, I: 0}, Avoid: s.IsRecv, AvoidEdge: fsTest, Target: call}) != nil {
 			c.Okf(rule, "flush-requested", s.Tick.Pos(), "the timer arm reaches sendFunc() directly")
